@@ -345,6 +345,11 @@ func (b *Bridge) after(in *hub.Instance, g *bridgeGhost, op engine.Op, pre *view
 			if len(l) == 0 || l[0].where != "pool" {
 				// may have been re-batched in the same BeginBlock (auto-batching): accept any single location
 				if len(l) == 0 {
+					// ... or, released by an execution event, have been refunded by the expiry sweep of the same EndBlocker
+					// because it is older than the outgoing-transfer timeout (the refund itself is C12's matter)
+					if endBlock && int64(e.CreatedAt)+b.timeoutDur() < in.Time && e.RefundChainId != "" {
+						continue
+					}
 					b.v(st, "C13", "cancelled_batch_transfer_lost", "CancelBatchTx", "transfer %s/%d of withdrawn batch %s is nowhere", ch, e.Id, k)
 				}
 			}
@@ -417,6 +422,7 @@ func (b *Bridge) after(in *hub.Instance, g *bridgeGhost, op engine.Op, pre *view
 	}
 	sort.Strings(ids)
 	var expiredNow []*xfer
+	refundUsed := map[string]bool{}
 	for _, k := range ids {
 		x := g.Xfers[k]
 		l := locs[k]
@@ -438,18 +444,39 @@ func (b *Bridge) after(in *hub.Instance, g *bridgeGhost, op engine.Op, pre *view
 			if len(was) > 6 && was[:6] == "batch:" {
 				bk = x.Chain + "|" + splitBatch(was)
 			}
+			// a batch withdrawn in this very phase (an execution event released it) puts its transfers back into the pool
+			// before the expiry sweep of the same EndBlocker runs
+			releasedNow := false
+			if bk != "" && !execd[bk] {
+				_, had := preB[bk]
+				_, has := postB[bk]
+				releasedNow = had && !has
+			}
 			switch {
 			case bk != "" && execd[bk]:
 				x.Where = "executed"
 				st.Count("transfers_executed", 1)
 			case was == "pool" && op.Kind == "Cancel":
 				x.Where = "refunded" // checked by cancelOracle
-			case was == "pool" && endBlock:
+			case (was == "pool" || releasedNow) && endBlock:
 				// expiry refund
 				expired := x.Created+b.timeoutDur() < now
 				if !expired {
 					b.v(st, "C12", "refunded_before_timeout", "refundExpiredTxs", "%s created %d removed at %d (timeout %d s)", k, x.Created, now, b.timeoutDur())
 					b.v(st, "C04", "transfer_disappeared", "refundExpiredTxs", "%s left the pool at EndBlock without being expired", k)
+				}
+				// a refund towards the originating chain is a new module-created transfer to the originating address
+				if x.Origin != "hub" && x.Origin != "" {
+					issued := false
+					for _, nk := range newIDs {
+						if e := locs[nk][0].ent; e.ChainId == x.Origin && e.ExternalRecipient == x.OriginAddr && !refundUsed[nk] {
+							issued, refundUsed[nk] = true, true
+							break
+						}
+					}
+					if !issued {
+						b.v(st, "C04", "transfer_disappeared", "refundExpiredTxs", "%s (from %s on %s) left the pool at EndBlock but no refund transfer towards %s was created: it is nowhere", k, x.OriginAddr, x.Origin, x.Origin)
+					}
 				}
 				expiredNow = append(expiredNow, x)
 				x.Where = "refunded"
@@ -468,6 +495,11 @@ func (b *Bridge) after(in *hub.Instance, g *bridgeGhost, op engine.Op, pre *view
 			for _, e := range es {
 				// module-created transfers without a refund destination (refund re-sends, #fee, #commission)
 				// have nobody to be returned to: they simply stay pending
+				// ... and so does a transfer whose refund cannot be issued because governance took its token off the
+				// originating chain's list (it is refunded once the token is listed again)
+				if t := b.tokenByExt(ch, e.Token.ExternalTokenId); t != nil && g.Delisted[e.RefundChainId+"|"+t.Denom] {
+					continue
+				}
 				if e.RefundChainId != "" && int64(e.CreatedAt)+b.timeoutDur() < now {
 					b.v(st, "C12", "overdue_transfer_not_refunded", "refundExpiredTxs", "%s/%d created at %d is still in the pool after the EndBlocker at %d (timeout %d s)", ch, e.Id, e.CreatedAt, now, b.timeoutDur())
 				}
